@@ -405,6 +405,13 @@ def run_one(funcs, o, tier):
         return run_scan(funcs, o, tier)
     if o["spec"].get("kind") == "bounds":
         return run_bounds(funcs, o, tier)
+    if o["spec"].get("crate"):
+        # protocol obligation on a workspace member: its own MIR dump
+        funcs = load_mir_crate(_CACHE.get("scratch", "/tmp"), o["spec"]["crate"])
+        if funcs is None:
+            rec = dict(o); rec.pop("spec", None)
+            rec.update(verdict="inconclusive", reason="MIR dump of %s failed" % o["spec"]["crate"], wall_s=0)
+            return rec
     spec = dict(o["spec"])
     if tier == "thorough":
         spec["unroll"] = spec.get("unroll_thorough", spec.get("unroll", 2) + 2)
